@@ -561,6 +561,33 @@ void h_descriptor(void)
     errno = 0;
     v = vnaproperty_get(root, "c");
     CHECK(v == NULL && errno == ENOENT, "and the key without it is a different key");
+#elif DESC_CASE == 13
+    /* a well-formed path without a value: refused, and NOT after the path was forced into the tree */
+    errno = 0;
+    rc = vnaproperty_set(&root, "foo.b");
+    REACH("set without a value returned");
+    CHECK(rc == -1 && errno == EINVAL, "a set without '=' or '#' is refused with EINVAL");
+    v = vnaproperty_get(root, "foo");
+    CHECK(v != NULL && str_eq(v, "bar"), "a refused set changes nothing (the scalar on the path is still there)");
+    CHECK(vnaproperty_type(root, "foo") == 's' && vnaproperty_count(root, ".") == 1, "types and counts are unchanged");
+    errno = 0;
+    rc = vnaproperty_set(&root, "new.key");
+    CHECK(rc == -1 && errno == EINVAL, "the same for a path that does not exist yet");
+    CHECK(vnaproperty_count(root, ".") == 1 && vnaproperty_type(root, "new") == -1, "no key is created by a refused set");
+#elif DESC_CASE == 14
+    /* set_subtree with trailing tokens: refused before the tree is touched */
+    errno = 0;
+    CHECK(vnaproperty_set_subtree(&root, "foo.b=1") == NULL && errno == EINVAL,
+	    "set_subtree with trailing tokens is refused with EINVAL");
+    REACH("set_subtree with trailing tokens returned");
+    v = vnaproperty_get(root, "foo");
+    CHECK(v != NULL && str_eq(v, "bar"), "a refused set_subtree changes nothing");
+    CHECK(vnaproperty_count(root, ".") == 1, "no key is created by a refused set_subtree");
+    errno = 0;
+    rc = vnaproperty_set(&root, "foo{}=x");
+    CHECK(rc == -1 && errno == EINVAL, "a value cannot be assigned to a map expression");
+    v = vnaproperty_get(root, "foo");
+    CHECK(v != NULL && str_eq(v, "bar"), "and the scalar is not replaced by an empty map first");
 #elif DESC_CASE == 11
     {
 	vnaproperty_t *copy = NULL;
